@@ -41,7 +41,7 @@ CallBack == /\ phase = "iter" /\ Len(calls) < Len(segs) + 2
 
 Next == Grow \/ Start \/ CallFront \/ CallBack
 
-VocabC == {<<>>, <<97>>, <<233>>, DOTDOT}
+VocabC == {<<>>, <<97>>, <<233>>, DOTDOT, <<110, 97, 239, 118, 101>>, <<255, 163, 191>>}
 
 (* Theorems about the iterator machine *)
 Sel(c) == {k \in 1..Len(calls) : calls[k] = c /\ ys[k] # NULL}
